@@ -77,11 +77,11 @@ HOOK_COMMITS = ["fb76d1e verif hook: call counters behind --cfg stylua_verif", "
 PROPS["C04"] = {
     "lean_modules": ["StyluaModel.Props.C04"],
     "theorem_prefix": "C04_",
-    "required_theorems": ["C04_value_51", "C04_value_52", "C04_wf", "C04_num_id", "C04_num_dot"],
+    "required_theorems": ["C04_value_51", "C04_value_52", "C04_wf", "C04_num_id", "C04_num_dot", "C04_long", "C04_long_lone_cr_witness"],
     "hx": [["c04"]],
     "level": "proof",
-    "level_text": "Proof: Lean theorems (unbounded body length, all quote styles) that the modelled quoted-string rewrite preserves the Lua 5.1 value, the Lua 5.2+ value when defined, and lexability as one string token; number rewrite only adds a leading 0. The model is tied to general.rs by an exhaustive small-scope byte-for-byte correspondence on every run.",
-    "level_note": "Trusted: Lean kernel; hand-written model of get_quote_to_use/format_token (tied by correspondence, ~9e5 requests per quick run); spec decoders validated against independent Rust decoders and full_moon's tokenizer; regex crate semantics. Long-bracket value equality is checked by the oracle only (no theorem yet).",
+    "level_text": "Proof: Lean theorems (unbounded body length, all quote styles) that the modelled quoted-string rewrite preserves the Lua 5.1 value, the Lua 5.2+ value when defined, and lexability as one string token; a long-bracket body keeps its value under both line_endings settings whenever every carriage return is followed by a line feed (the excluded case is a proven counterexample and a known finding); number rewrite only adds a leading 0. The model is tied to general.rs by an exhaustive small-scope byte-for-byte correspondence on every run.",
+    "level_note": "Trusted: Lean kernel; hand-written model of get_quote_to_use/format_token (tied by correspondence, ~9e5 requests per quick run); spec decoders validated against independent Rust decoders and full_moon's tokenizer; regex crate semantics; the long-bracket conversion is tied by the `long` protocol (every body x 3 levels x 4 positions x 2 endings).",
     "technique": "Lean 4 simulation proof (scanner vs decoder state machines) + exhaustive model/implementation correspondence",
     "exhaustive": True,
     "rule": "ring 2: every string body over an 18-symbol escape alphabet up to length 4 (quick) / 5 (thorough), in single- and double-quoted form, as expression / sugar-call argument / table key / index, x 4 quote styles x {All, Lua51[, Luau, LuaJIT]}; long-bracket form x 2 levels x 2 line endings; 767 number spellings x 7 syntaxes. The output token of the real format_code must equal modeld's answer byte for byte. distinct_nontrivial = distinct requests whose body contains a quote, backslash or newline (i.e. a rewriting decision is taken). ring 3: independent Lua 5.1 / 5.2 decoders on input vs output token.",
@@ -91,7 +91,7 @@ PROPS["C04"] = {
     ],
     "assumptions": [
         "string bodies are compared as Unicode scalar sequences (the unit the regex matches on)",
-        "long-bracket value theorem excludes bodies with a lone CR (reported separately)",
+        "C04_long excludes bodies with a lone CR; the oracle does not: such bodies whose value changes are reported under the known-finding signature long-value-changed:lone-cr",
     ],
 }
 
